@@ -162,6 +162,44 @@ fn id_collision(c1: &str) {
     );
 }
 
+/// pv-decode <hex>: PropertyValue::decode on raw bytes (an abort of the process is the reproduction; the caller sees the signal).
+fn pv_decode(h: &str) {
+    let bytes = hex(h);
+    let r = nervusdb_api::PropertyValue::decode(&bytes);
+    report("pv-decode", false, format!("returned {:?}", r.map(|_| "Ok").map_err(|e| e.to_string())));
+}
+
+/// wal-body <hex>: a committed log followed by one checksummed record with this body, then open (decode_body on untrusted bytes).
+fn wal_body(h: &str) {
+    let body = hex(h);
+    let mut crc = 0xFFFF_FFFFu32;
+    for &b in &body {
+        crc ^= b as u32;
+        for _ in 0..8 {
+            crc = if crc & 1 != 0 { (crc >> 1) ^ 0xEDB8_8320 } else { crc >> 1 };
+        }
+    }
+    let crc = !crc;
+    let mut tail = Vec::new();
+    tail.extend_from_slice(&(body.len() as u32).to_le_bytes());
+    tail.extend_from_slice(&crc.to_le_bytes());
+    tail.extend_from_slice(&body);
+    let d = tempfile::tempdir().unwrap();
+    let p = d.path().join("g");
+    {
+        let db = Db::open(&p).unwrap();
+        w(&db, "CREATE (:A {x:1})").unwrap();
+    }
+    let mut f = std::fs::OpenOptions::new().append(true).open(d.path().join("g.wal")).unwrap();
+    f.write_all(&tail).unwrap();
+    drop(f);
+    let r = std::panic::catch_unwind(|| Db::open(&p).map(|_| ()).map_err(|e| e.to_string()));
+    match r {
+        Err(_) => report("wal-body", true, "Db::open panicked while decoding the record".into()),
+        Ok(x) => report("wal-body", false, format!("open returned {:?}", x)),
+    }
+}
+
 /// query <cypher>: prints rows (used by several E2 replays that only need one read query on an empty db).
 fn query(cy: &str) {
     let d = tempfile::tempdir().unwrap();
@@ -178,6 +216,8 @@ fn main() {
         "wal-append-after-tail" => wal_append_after_tail(&arg(2)),
         "edge-free-incoming" => edge_free_incoming(arg(2) == "bulk"),
         "id-collision" => id_collision(&arg(2)),
+        "pv-decode" => pv_decode(&arg(2)),
+        "wal-body" => wal_body(&arg(2)),
         "query" => query(&arg(2)),
         _ => {
             eprintln!("unknown witness");
